@@ -226,18 +226,39 @@ pub fn run(_m: &mut Machine, op: &str, args: &[Val]) -> R<Out> {
             }
             let mut ps: Vec<&G1Prepared> = vec![];
             let mut qs: Vec<&G2Prepared> = vec![];
+            // mode + 16: every list entry gets an object of its own (clones); otherwise entries that name the same
+            // register refer to ONE object - the result must not depend on which entries alias
+            let unalias = args.len() > 1 && n(1)? & 16 != 0;
+            let mut own1: Vec<Box<G1Prepared>> = vec![];
+            let mut own2: Vec<Box<G2Prepared>> = vec![];
+            if unalias {
+                for i in 0..l.len() / 2 {
+                    match (&l[2 * i], &l[2 * i + 1]) {
+                        (Val::Prep1(p), Val::Prep2(q)) => {
+                            own1.push(Box::new((**p).clone()));
+                            own2.push(Box::new((**q).clone()));
+                        }
+                        _ => return Err("miller needs (Prep1, Prep2) pairs".into()),
+                    }
+                }
+            }
             for i in 0..l.len() / 2 {
                 match (&l[2 * i], &l[2 * i + 1]) {
                     (Val::Prep1(p), Val::Prep2(q)) => {
-                        ps.push(&**p);
-                        qs.push(&**q);
+                        if unalias {
+                            ps.push(&*own1[i]);
+                            qs.push(&*own2[i]);
+                        } else {
+                            ps.push(&**p);
+                            qs.push(&**q);
+                        }
                     }
                     _ => return Err("miller needs (Prep1, Prep2) pairs".into()),
                 }
             }
             let pairs: Vec<(&G1Prepared, &G2Prepared)> = ps.into_iter().zip(qs.into_iter()).collect();
             // optional second argument: the kind of iterator handed to the generic entry point
-            let mode = if args.len() > 1 { n(1)? } else { 0 };
+            let mode = if args.len() > 1 { n(1)? & 15 } else { 0 };
             let half = pairs.len() / 2;
             ok1(Val::Fq12(match mode {
                 0 => Bls12::miller_loop(pairs.iter()),
